@@ -95,6 +95,8 @@ struct Reg {
       pts.push_back(Pt(0, 0, 0, 0, true));
       return pts;
     };
+    // quick tier: amplitudes of one primitive field vanishing together (the full d<=2 ball is the thorough tier)
+    s.zero_pair_group = [](const std::string& n) { if (n.size() > 2 && n[0] == 'a' && n[1] == '_') { size_t k = 2; std::string f; while (k < n.size() && n[k] != '0' && n[k] != 'x' && n[k] != 'y' && n[k] != 'z') f.push_back(n[k++]); return "amp_" + f; } return std::string(); };
     s.reference = pl_ref;
     s.max_dev_quick = 1; s.max_dev_thorough = 2;
     e1_systems().push_back(s);
